@@ -206,11 +206,11 @@ def r5(ctx):
 
 def check(ctx):
     ctx.explanation = (
-        "Who-writes rule on Attributes._d (only __setitem__ after the list wrap, and __delitem__; __init__/update route through "
-        "__setitem__); who-reads rule on constants.always_return_list (only the view in __getitem__, saved/restored in bed12, checked by "
-        "post-dominance); JSON codec pairing re-uses C01.R3; merge_attributes is checked for stores through its arguments (taint from the "
-        "parameters and loop variables over them), for deepcopy on every value flow, and for the sorted(set()) result shape; equality and "
-        "hash must be functions of str(self). Does not decide JSON identity for arbitrary Unicode (simplejson's behaviour).")
+        "The container's own methods (__setitem__, update, __init__, __getitem__) and Feature.__setitem__ are evaluated abstractly on "
+        "symbolic values; who-writes rule on Attributes._d outside the class; who-reads rule on constants.always_return_list (saved/restored "
+        "in bed12, post-dominance); JSON codec pairing re-uses C01.R3; merge_attributes is evaluated on two mappings (result, arguments "
+        "before/after, sharing); equality and hash are evaluated with the printed line summarised. Does not decide JSON identity for "
+        "arbitrary Unicode (simplejson's behaviour).")
     r1(ctx)
     r2(ctx)
     from . import c01
